@@ -92,6 +92,11 @@ func RandConf(rng *rand.Rand, n uint8) GBNConf {
 	if rng.Intn(3) == 0 {
 		c.HSTimeout = 2 * time.Second
 	}
+	// transport calls that are not instantaneous (schedule perturbation)
+	if rng.Intn(4) == 0 {
+		c.JitterMax = pickDur(rng, time.Nanosecond, time.Microsecond, 200*time.Microsecond)
+		c.JitterSeed = rng.Int63()
+	}
 	return c
 }
 
